@@ -4539,6 +4539,8 @@ class ParseCtx:
                     kwargs["int_signed"] = attr.children[0].value == "signed"
                 elif attr.data == "width_attr":
                     kwargs["int_width"] = int(attr.children[0].value)
+                    if kwargs["int_width"] not in (1, 2, 4, 8):
+                        raise IllegalParseTree("Integer size must be 1, 2, 4 or 8 bytes", attr)
                 else:
                     raise NotImplementedError(attr)
             return OutputStorage(OutputStorageType.INT, name, default_value=default_value, **kwargs)
